@@ -336,8 +336,10 @@ Fixpoint build (r : recipe) (s : bstate) {struct r} : option err * bstate :=
   | RSyscallError r sc => on r s (mk_wrap (WSyscallError sc))
   | ROpError r op net src addr => on r s (mk_wrap (WOpError op net src addr))
   | RForeignErrno n =>
+    (* the sender's platform: another OS for odd errno values, the same OS on another CPU for even ones *)
     some (mk_leaf (LOpaqueErrno (errno_text n)
-             (mkerrno n (lit "plan9:mips") (errno_is_perm n) (errno_is_exist n) (errno_is_notexist n)
+             (mkerrno n (if Z.odd n then lit "plan9:mips" else lit "linux:mips64")
+                      (errno_is_perm n) (errno_is_exist n) (errno_is_notexist n)
                       (errno_timeout n) (errno_temporary n))) s)
   | RUWrap u r msg xs => on r s (mk_wrap (WUser u msg xs))
   | RTransfer r ps =>
